@@ -43,6 +43,9 @@ def check_c11(prop, tier, seed):
                  dict(kind='wrap', seed=83 + s, mseed=s, n_batch=4, n_live=20, periodic=[0], blob='float',
                       prior='Prior', smooth=True, runkw=dict(n_eff=50, discard_exploration=False, n_shell=8)),
                  dict(kind='ring', seed=87 + s, mseed=s, n_batch=4, n_live=20, prior='PriorArr', smooth=True),
+                 # a likelihood that leaves one parameter unconstrained: the outer bounds become cube-ellipsoid mixtures
+                 # with genuine cube dimensions (their proposals come from the inner UnitCube's generator)
+                 dict(kind='plateau', n_dim=3, seed=89 + s, mseed=s, n_batch=4, n_live=30, n_points_min=6, smooth=True, blob='float'),
                  # sampler pool and thousands of proposals per bound: the pooled refill path draws worker seeds from
                  # the shared generator, so anything that changes WHEN a bound refills (e.g. writing a checkpoint)
                  # changes the result
